@@ -92,6 +92,10 @@ def produce(config="default", repo=None, target_dir=None, quiet=True):
     fdir = os.path.join(CACHE, "facts", key)
     meta_p = os.path.join(fdir, "meta.json")
     if os.path.exists(meta_p):
+        try:
+            os.utime(fdir, None)
+        except OSError:
+            pass
         return fdir, json.load(open(meta_p))
     lock = open(os.path.join(CACHE, "lock"), "w")
     fcntl.flock(lock, fcntl.LOCK_EX)
@@ -155,13 +159,17 @@ def produce(config="default", repo=None, target_dir=None, quiet=True):
 
 
 def _prune(d, keep):
+    """drop fact sets not used for two hours (beyond the `keep` most recent); never a set another
+    process may just have been handed"""
     try:
         ents = [(os.path.getmtime(os.path.join(d, e)), e) for e in os.listdir(d)]
     except FileNotFoundError:
         return
     ents.sort(reverse=True)
-    for _, e in ents[keep:]:
-        shutil.rmtree(os.path.join(d, e), ignore_errors=True)
+    now = time.time()
+    for mt, e in ents[keep:]:
+        if now - mt > 7200:
+            shutil.rmtree(os.path.join(d, e), ignore_errors=True)
 
 
 if __name__ == "__main__":
